@@ -1021,6 +1021,9 @@ theorem realTrig_spec : realTrig.Spec where
   sqrt_nonpos := fun _ h => Real.sqrt_eq_zero_of_nonpos h
   pi_pos := Real.pi_pos
   cos_range := fun x => ⟨Real.neg_one_le_cos x, Real.cos_le_one x⟩
+  cos_right := by
+    show Real.cos (90 * Real.pi / 180) = 0
+    rw [show (90 : ℝ) * Real.pi / 180 = Real.pi / 2 by ring]; exact Real.cos_pi_div_two
   cos_acos := fun _ h1 h2 => Real.cos_arccos h1 h2
   acos_cos := fun _ h1 h2 => Real.arccos_cos h1 h2
   acos_range := fun _ h1 h2 => ⟨Real.arccos_pos.mpr h2, Real.arccos_lt_pi.mpr h1⟩
@@ -1153,5 +1156,113 @@ theorem clampCos_angleCos (u v : V3 K) (n1 n2 : K) (h1 : 0 < n1) (h2 : 0 < n2)
 example : ∃ (u v : V3 ℚ) (n1 n2 : ℚ), 0 < n1 ∧ 0 < n2 ∧ n1 * n1 = V3.normSq u ∧ n2 * n2 = V3.normSq v ∧
     angleCos u v n1 n2 ≠ 0 ∧ clampCos (angleCos u v (n1 / 2) n2) ≠ angleCos u v (n1 / 2) n2 :=
   ⟨⟨3, 4, 0⟩, ⟨4, 3, 0⟩, 5, 5, by decide +kernel⟩
+
+/-! ### the pair theorem on the *object*; the crystal-family constructors -/
+
+/-- the setter call a definition is. -/
+def Params.toSetOp (T : Trig K) : Params K → SetOp K
+  | .vectors a b c o => .vects ⟨a, b, c⟩ o
+  | .abc a b c al be ga o => .abc al be ga a b c (cosDeg T al) (cosDeg T be) (cosDeg T ga)
+      (T.sqrt (abcLySq b (cosDeg T ga)))
+      (T.sqrt (abcLzSq b c (cosDeg T al) (cosDeg T be) (cosDeg T ga) (T.sqrt (abcLySq b (cosDeg T ga))))) o
+  | .lengths p o => .lengths p o
+  | .hilos p => .hilos p
+
+theorem define_eq_setOp (thr : K) (b0 : Box K) (q : Params K) : define? T thr q = (q.toSetOp T).apply? thr b0 := by
+  cases q with
+  | vectors a b c o => rfl
+  | abc a b c al be ga o => exact setAbcDeg_eq_setOp thr b0 a b c al be ga o
+  | lengths p o => rfl
+  | hilos p => rfl
+
+/-- **read through Y, rebuild through Y, on the object with its cache and after any history**: for a Box object whose
+    current cell is clean and LAMMPS-oriented, the values its Y-getters hand out, given to Y's setter, are accepted, leave the
+    object with the same cell, and every later read (reciprocal vectors, both conversions, inside, outside) reports what it
+    reported before — whatever was cached. -/
+theorem obj_rebuild_any_pair (hT : T.Spec) (thr : K) (c : CBox K) (hc : c.Coherent) (Y : Family)
+    (hcl : IsClean thr c.box) (hn : c.box.isLammpsNorm = true) :
+    ∃ q, readAs? T Y c.box = some q ∧ (c.set thr (q.toSetOp T)).2 = .ok ∧ (c.set thr (q.toSetOp T)).1.box = c.box ∧
+      ∀ r : ReadOp K, ((c.set thr (q.toSetOp T)).1.read r).2 = (c.read r).2 := by
+  obtain ⟨q, h1, _, h2⟩ := read_rebuild_same hT thr Y c.box hcl hn
+  rw [define_eq_setOp thr c.box q] at h2
+  have e : c.set thr (q.toSetOp T) = (⟨c.box, if (q.toSetOp T).writesVects then none else c.cache⟩, .ok) := by
+    simp only [CBox.set, h2]
+  refine ⟨q, h1, by rw [e], by rw [e], ?_⟩
+  intro r
+  have hc' : (c.set thr (q.toSetOp T)).1.Coherent := obj_set_coherent thr c hc _
+  have r1 := (obj_step_refines thr _ hc' (.read r)).2
+  have r2 := (obj_step_refines thr c hc (.read r)).2
+  simp only [CBox.step, stepPlain] at r1 r2
+  rw [r1, r2, e]
+
+/-- which constructor calls are refused by the constructor itself. -/
+theorem ctor_refuses_iff (a b c al be ga : K) :
+    ((Ctor.cubic a).params? (K := K)).isSome = true ∧
+    ((Ctor.hexagonal a c).params? = none ↔ a = c) ∧ ((Ctor.tetragonal a c).params? = none ↔ a = c) ∧
+    ((Ctor.trigonal a al).params? = none ↔ 120 ≤ al) ∧
+    ((Ctor.orthorhombic a b c).params? = none ↔ (a = b ∨ a = c)) ∧
+    ((Ctor.monoclinic a b c be).params? = none ↔ (a = b ∨ a = c ∨ be ≤ 90)) ∧
+    ((Ctor.triclinic a b c al be ga).params? = none ↔ (a = b ∨ a = c ∨ al = be ∨ al = ga)) := by
+  refine ⟨rfl, ?_, ?_, ?_, ?_, ?_, ?_⟩
+  · simp only [Ctor.params?]; split <;> simp_all
+  · simp only [Ctor.params?]; split <;> simp_all
+  · simp only [Ctor.params?]; split <;> simp_all
+  · simp only [Ctor.params?]; split <;> simp_all
+  · simp only [Ctor.params?]; split
+    · rename_i h; simp only [true_iff]; rcases h with h | h
+      · exact Or.inl h
+      · exact Or.inr (Or.inl h)
+    · split <;> simp_all
+  · simp only [Ctor.params?]; split
+    · rename_i h; simp only [true_iff]; rcases h with h | h
+      · exact Or.inl h
+      · exact Or.inr (Or.inl h)
+    · split <;> simp_all
+
+/-- an accepted constructor call defines a cell through lengths and angles with origin `(0,0,0)`, and — like every such cell
+    — a non-degenerate result is LAMMPS-oriented and can be read back and rebuilt through every parameter set. -/
+theorem ctor_rebuild_any (hT : T.Spec) (thr : K) (hthr : 0 ≤ thr) (k : Ctor K) (q : Params K) (b : Box K) (Y : Family)
+    (hq : k.params? = some q) (hb : define? T thr q = some b) (hd : b.vects.det ≠ 0) :
+    q.family = .abc ∧ b.origin = ⟨0, 0, 0⟩ ∧ b.isLammpsNorm = true ∧
+    ∃ q', readAs? T Y b = some q' ∧ q'.family = Y ∧ define? T thr q' = some b := by
+  have hf : q.family = .abc ∧ ∃ a b' c al be ga, q = .abc a b' c al be ga ⟨0, 0, 0⟩ := by
+    cases k <;> simp only [Ctor.params?] at hq <;>
+      first
+      | (cases hq; exact ⟨rfl, _, _, _, _, _, _, rfl⟩)
+      | (split at hq
+         · cases hq
+         · first
+           | (cases hq; exact ⟨rfl, _, _, _, _, _, _, rfl⟩)
+           | (split at hq
+              · cases hq
+              · cases hq; exact ⟨rfl, _, _, _, _, _, _, rfl⟩))
+  obtain ⟨hfam, a, b', c, al, be, ga, rfl⟩ := hf
+  have ho : b.origin = ⟨0, 0, 0⟩ := by
+    rw [define_eq_clean_raw] at hb
+    obtain ⟨b0, h0, rfl⟩ := Option.map_eq_some_iff.mp hb
+    simp only [defineRaw?] at h0
+    split at h0
+    · exact (lengths_readback _ _ _ h0).2.2
+    · cases h0
+  have hne : (Params.abc a b' c al be ga (⟨0, 0, 0⟩ : V3 K)).family ≠ .vectors := by simp [Params.family]
+  exact ⟨hfam, ho, defined_normal_of_det thr _ hne b hb hd,
+    rebuild_any_pair hT thr hthr _ Y b hb hd (Or.inl hne)⟩
+
+/-- right angles: `set_abc(a, b, c, 90, 90, 90)` — what `Box.cubic`, `Box.tetragonal`, `Box.orthorhombic` call — hands the
+    diagonal matrix `diag(a, b, c)` to the `vects` setter. -/
+theorem define_right_angles (hT : T.Spec) (a b c : K) (ha : 0 < a) (hb : 0 < b) (hc : 0 < c) (o : V3 K) :
+    defineRaw? T (.abc a b c 90 90 90 o) = some ⟨⟨⟨a, 0, 0⟩, ⟨0, b, 0⟩, ⟨0, 0, c⟩⟩, o⟩ := by
+  have h90 : cosDeg T 90 = 0 := hT.cos_right
+  have ok : anglesOk (90 : K) 90 90 = true := by
+    simp only [anglesOk, Bool.and_eq_true, decide_eq_true_eq]; norm_num
+  have e1 : abcLySq b 0 = b * b := by simp only [abcLySq]; ring
+  have s1 : T.sqrt (abcLySq b 0) = b := by rw [e1]; exact hT.sqrt_mul_self b hb.le
+  have e2 : abcLzSq b c 0 0 0 b = c * c := by simp only [abcLzSq]; ring
+  have s2 : T.sqrt (abcLzSq b c 0 0 0 b) = c := by rw [e2]; exact hT.sqrt_mul_self c hc.le
+  simp only [defineRaw?, ok, if_true, abcOfDeg, h90, s1, s2, ofLengthsP?, abcLengths, Box.ofLengths?, ha, hb, hc, and_self,
+    mul_zero, sub_zero, zero_div]
+
+example : ∃ k : Ctor ℚ, ∃ q, k.params? = some q ∧ q.family = .abc :=
+  ⟨.monoclinic 2 3 4 100, _, rfl, rfl⟩
 
 end Atomman.C01
